@@ -65,6 +65,8 @@ int cholmod_l_sdmult(cholmod_sparse*, int, double*, double*, cholmod_dense*, cho
 cholmod_factor* cholmod_l_analyze(cholmod_sparse*, cholmod_common*); int cholmod_l_factorize(cholmod_sparse*, cholmod_factor*, cholmod_common*);
 cholmod_dense* cholmod_l_solve(int, cholmod_factor*, cholmod_dense*, cholmod_common*);
 int cholmod_l_rowadd(size_t, cholmod_sparse*, cholmod_factor*, cholmod_common*); int cholmod_l_rowdel(size_t, cholmod_sparse*, cholmod_factor*, cholmod_common*);
+cholmod_dense* SuiteSparseQR_C_backslash_default(cholmod_sparse*, cholmod_dense*, cholmod_common*);
+void bzero(void*, size_t); extern void* stderr; int fprintf(void*, const char*, ...); void exit(int);
 cholmod_sparse* get_column(cholmod_sparse* A, long k, long* iPerm, long* Fset, long nF, cholmod_common* c);
 cholmod_factor* recompute_factor(cholmod_sparse* A, cholmod_factor* L, long* iPerm, long* F, unsigned long nF, cholmod_common* c);
 '''
@@ -77,7 +79,7 @@ double calc_residual(cholmod_sparse* AtA, cholmod_dense* Atb, cholmod_dense* x, 
 void evaluate_descent(void* trial_);
 int walk_descents(cholmod_sparse* AtA_F, cholmod_dense* Atb_F, cholmod_dense* x, cholmod_dense* x_F, long* F, long* nF_, long* H1, long* nH1_, double* residual, int* residual_calcs, int verbose, cholmod_common* c);
 '''
-NNLS_FUNCS = ("intcmp", "nnls_normal_block", "nnls_normal_block3")
+NNLS_FUNCS = ("intcmp", "nnls_lawson_hanson", "nnls_normal_block", "nnls_normal_block_updown", "nnls_normal_block3")
 CHOL_FUNCS = ("double_rcmp", "cholesky_solve", "modify_factor", "modify_factor_p", "calc_residual", "evaluate_descent", "walk_descents")
 
 def build():
@@ -174,13 +176,14 @@ def install(it, nthreads, fl_mode):
     def h_submatrix(it_, a):
         S, stp = get(a[0])
         if stp != 0: raise G.ExecError("cholmod_submatrix on a matrix declared symmetric (cholmod refuses this: returns NULL)")
-        rs, cs = idx(a[1], a[2]), idx(a[3], a[4])
+        rs = list(range(S.n)) if a[2] < 0 else idx(a[1], a[2])            # rsize < 0: all rows
+        cs = list(range(S.m)) if a[4] < 0 else idx(a[3], a[4])
         if any(not 0 <= r < S.n for r in rs) or any(not 0 <= c < S.m for c in cs): raise G.MemError("cholmod_submatrix: index outside the matrix")
         return mk(Sp(len(rs), len(cs), {(i, j): S.ent[(r, c)] for i, r in enumerate(rs) for j, c in enumerate(cs) if (r, c) in S.ent}), 0)
     def h_sdmult(it_, a):
         S, stp = get(a[0]); ent = full(S, stp); al = a[2].obj.cells[a[2].off].num; be = a[3].obj.cells[a[3].off].num
         Xd, Yd = dense(a[4]), dense(a[5]); xv = dvals(Xd)
-        if a[1] != 0: raise G.ExecError("sdmult with transpose not modelled")
+        if a[1] != 0: ent = {(c, r): v for (r, c), v in ent.items()}; S = Sp(S.m, S.n, ent)
         if Xd["nrow"] != S.m or Yd["nrow"] != S.n: raise G.ExecError("cholmod_sdmult: dimensions differ (A %dx%d, X %d, Y %d)" % (S.n, S.m, Xd["nrow"], Yd["nrow"]))
         yv = dvals(Yd) if be != 0 else [Fr(0)] * S.n
         out = [be * y for y in yv]
@@ -245,6 +248,26 @@ def install(it, nthreads, fl_mode):
         if B["nrow"] != f["n"]: raise G.ExecError("cholmod_solve: right-hand side has %d rows, the factor %d" % (B["nrow"], f["n"]))
         x = solve_exact(f["M"], dvals(B))
         return new_dense(f["n"], 1, [F(v) for v in x])
+    def h_qr(it_, a):
+        # assumed: SuiteSparseQR backslash returns the least-squares solution of a full-column-rank system (exact: normal equations)
+        S, stp = get(a[0]); ent = full(S, stp); B = dense(a[1]); bv = dvals(B); st["solves"] += 1
+        if B["nrow"] != S.n: raise G.ExecError("SuiteSparseQR backslash: right-hand side has %d rows, the matrix %d" % (B["nrow"], S.n))
+        N = [[Fr(0)] * S.m for _ in range(S.m)]; r = [Fr(0)] * S.m; rows = {}
+        for (i, j), v in ent.items(): rows.setdefault(i, []).append((j, v))
+        for i, lst in rows.items():
+            for j, v in lst:
+                r[j] += v * bv[i]
+                for j2, v2 in lst: N[j][j2] += v * v2
+        x = solve_exact(N, r)
+        if x is None: raise G.ExecError("SuiteSparseQR backslash on a rank-deficient matrix: not modelled")
+        return new_dense(S.m, 1, [F(v) for v in x])
+    def h_bzero(it_, a):
+        p, nbytes = a
+        for q in range(nbytes // 8): p.obj.cells[p.off + q] = F(0)
+        return None
+    def h_exit(it_, a): raise G.ExecError("the solver called exit(%s)" % a[0])
+    it.hooks.update(SuiteSparseQR_C_backslash_default=h_qr, bzero=h_bzero, exit=h_exit, fprintf=lambda it_, a: 0)
+    it.set_global("stderr", G.NULL)
     # ---- libc
     def h_qsort(it_, a):
         base, n, cmpf = a[0], a[1], a[3]
@@ -325,13 +348,16 @@ def install(it, nthreads, fl_mode):
     return mk, st
 
 # ---------------------------------------------------------------------------------------------- systems
+MY = {}
 def systems(thorough):
     """(label, A, b): symmetric positive definite A = M'M (+ shift), integer / rational / degenerate / badly scaled data"""
     out = []; rnd = random.Random(20251003)
     def add(label, M, y, shift=0):
         n = len(M[0]); A = [[sum(M[k][i] * M[k][j] for k in range(len(M))) + (shift if i == j else 0) for j in range(n)] for i in range(n)]
         b = [sum(M[k][i] * y[k] for k in range(len(M))) for i in range(n)]
-        if is_spd(A): out.append((label, A, b))
+        if is_spd(A):
+            out.append((label, A, b))
+            if shift == 0: MY[label] = (M, y)          # the least-squares form min |Mx - y| has these normal equations only without the shift
     # the system found by the native search (integers): block3 stopped after a partial step of its line search
     out.append(("found-5x5-integers", [[Fr(v) for v in r] for r in ((10, -4, 7, 4, 8), (-4, 20, 2, 10, -8), (7, 2, 13, 4, 8), (4, 10, 4, 13, -1), (8, -8, 8, -1, 10))], [Fr(v) for v in (-2, 14, 7, 7, -1)]))
     # found by the same search (binary64 data, taken exactly): block3 alternates between two active sets until its iteration cap
@@ -339,7 +365,7 @@ def systems(thorough):
     out.append(("found-3x3-cycle", [[Fr(v) for v in r] for r in cyc], [Fr(v) for v in (0.29655509445213535, -0.28689576355138036, -0.47879771435334972)]))
     # found by the thorough tier: block3 read H1[nH1] (uninitialised) while making H1 and H2 disjoint
     out.append(("found-4x4-h1-overread", [[Fr(v) for v in r] for r in ((17, -6, 4, 0), (-6, 13, -6, 2), (4, -6, 5, -5), (0, 2, -5, 9))], [Fr(v) for v in (6, -17, 7, -1)]))
-    count = 2400 if thorough else 400
+    count = 12000 if thorough else 400
     k = 0
     while len(out) < count + 3:
         k += 1; n = 1 + k % 5 + (k % 7 == 0) + (k % 11 == 0); m = n + k % 3; kind = ("int", "rat", "sparse", "scaled", "degenerate")[k % 5]
@@ -370,14 +396,19 @@ def run_case(args):
         cm = it.array("methods", [dict(ordering=q) for q in range(10)])
         cc.cells[0]["method"] = G.Ptr(cm, 0)
         try:
-            r = it.call(solver, [S, B, 0, G.Ptr(cc, 0)])
+            if solver == "nnls_lawson_hanson": r = it.call(solver, [S, B, F(Fr(1, 10 ** 9)), 0, 0, 0, 1, 0, G.Ptr(cc, 0)])      # pre-formulated normal equations, tolerance 1e-9, no iteration cap
+            elif solver == "nnls_lawson_hanson/ls":
+                M, y = MY[label]; S = mk(Sp(len(M), n, {(i, j): M[i][j] for i in range(len(M)) for j in range(n) if M[i][j] != 0}), 0)
+                o2 = it.new_obj("dense", 1); o2.cells[0] = dict(nrow=len(M), ncol=1, x=G.Ptr(it.array("y", [F(v) for v in y]), 0))
+                r = it.call("nnls_lawson_hanson", [S, G.Ptr(o2, 0), F(Fr(1, 10 ** 9)), 0, 0, 0, 0, 0, G.Ptr(cc, 0)])
+            else: r = it.call(solver, [S, B, 0, G.Ptr(cc, 0)])
         except G.ExecError as ex:
             ob("O1 the solver returns", False, "%s: %s" % (type(ex).__name__, ex)); return out
         ob("O1 the solver returns", True)
         x = [v.num for v in r.obj.cells[0]["x"].obj.cells[:n]]
         eps = Fr(2) ** -52
-        tol = n * eps * 10 ** 5 if solver == "nnls_normal_block3" else Fr(1, 10 ** 6)
-        neg_allowed = Fr(0) if solver == "nnls_normal_block3" else tol
+        tol = n * eps * 10 ** 5 if solver == "nnls_normal_block3" else Fr(1, 10 ** 9) if solver.startswith("nnls_lawson_hanson") else Fr(1, 10 ** 6)
+        neg_allowed = Fr(0) if solver == "nnls_normal_block3" or solver.startswith("nnls_lawson_hanson") else tol
         ob("O2 every component is non-negative (%s)" % ("exactly" if neg_allowed == 0 else "up to KKT_TOL"), all(v >= -neg_allowed for v in x), "x = %s" % [str(v) for v in x])
         g = [sum(A[i][j] * x[j] for j in range(n)) - b[i] for i in range(n)]
         scale = max([abs(v) for v in b] + [Fr(1)])
@@ -407,6 +438,9 @@ def main():
             cases += [(label, A, b, "nnls_normal_block3", nt, fm) for nt in (1, 2, 3) for fm in ("default", "updates", "recompute") if (label, A, b, "nnls_normal_block3", nt, fm) not in cases]
         elif thorough or q % 2 == 0: cases.append((label, A, b, "nnls_normal_block3", 1 + (q + 1) % 3, ("default", "updates", "recompute")[(q + 1) % 3]))
         cases.append((label, A, b, "nnls_normal_block", 1, "default"))
+        cases.append((label, A, b, "nnls_normal_block_updown", 1, ("default", "updates", "recompute")[(q + 2) % 3]))
+        cases.append((label, A, b, "nnls_lawson_hanson", 1, "default"))
+        if label in MY and (thorough or q % 2): cases.append((label, A, b, "nnls_lawson_hanson/ls", 1, "default"))
     t0 = time.time()
     with mp.Pool(min(vlib.NCORES, 16)) as pool:
         res = pool.map(run_case, cases, chunksize=1)
@@ -414,7 +448,7 @@ def main():
     bylabel = {(c[0], c[3]): c for c in cases}; native = {}
     def replay(tagged):
         """the same system handed to the real solver (double arithmetic, real cholmod)"""
-        m = re.match(r"(.*?) \[(\w+),", tagged)
+        m = re.match(r"(.*?) \[(\w+)[,/]", tagged)
         if not m or (m.group(1), m.group(2)) not in bylabel: return None
         if "exe" not in native:
             wd = vlib.workdir(); exe = os.path.join(wd, "replay_nnls")
@@ -426,7 +460,7 @@ def main():
         argsv = " ".join(str(v) for r in A for v in r) + " " + " ".join(str(v) for v in b)
         rc, out, w = vlib.sh("timeout -s KILL 60 %s %s %d %s 2>&1 | tail -5; exit ${PIPESTATUS[0]}" % (native["exe"], solver, len(A), argsv), timeout=90)
         return dict(replayed=(rc == 1), input="replay_nnls %s %d %s" % (solver, len(A), argsv), observed=("exit %d\n" % rc) + out[-1500:], command="tools/replay/replay_nnls.c linked with src/fitter/{nnls,cholesky_solve,splineutil}.c and the real cholmod")
-    for name, sel in (("C11-block3", "nnls_normal_block3"), ("C11-block", "[nnls_normal_block,")):
+    for name, sel in (("C11-block3", "nnls_normal_block3"), ("C11-block", "[nnls_normal_block,"), ("C11-updown", "[nnls_normal_block_updown,"), ("C11-lawson-hanson", "[nnls_lawson_hanson")):
         grp = [o for o in flat if sel in o[0]]
         rep.add_group("E3-rational (exact execution of the GOTO program; cholmod, recompute_factor and get_column as assumed contracts; workers run to completion)", len(grp), sum(1 for o in grp if o[1]),
                       time.time() - t0, bounded="%d symmetric positive-definite systems, 1..%d unknowns; 1-3 workers; three work-estimate regimes of modify_factor" % (len(sysl), max(len(s[1]) for s in sysl)), name=name)
@@ -437,7 +471,7 @@ def main():
     t1 = time.time(); replay("%s [nnls_normal_block3," % sysl[0][0])                     # builds the harness
     nat = []
     if native.get("exe"):
-        bf = os.path.join(vlib.workdir(), "nnls_batch.txt"); order = [(label, A, b, sv) for (label, A, b) in sysl for sv in ("nnls_normal_block3", "nnls_normal_block")]
+        bf = os.path.join(vlib.workdir(), "nnls_batch.txt"); order = [(label, A, b, sv) for (label, A, b) in sysl if not label.startswith("scaled") for sv in ("nnls_normal_block3", "nnls_normal_block", "nnls_normal_block_updown", "nnls_lawson_hanson")]
         with open(bf, "w") as f:
             for label, A, b, sv in order: f.write("%s %d %s %s\n" % (sv, len(A), " ".join(str(v) for r in A for v in r), " ".join(str(v) for v in b)))
         rc, out, w = vlib.sh("timeout -s KILL 600 %s --batch %s" % (native["exe"], bf), timeout=700)
@@ -449,10 +483,18 @@ def main():
             for (label, A, b, sv), line in zip(order, lines):
                 xo = xo_of[label]; tagn = "%s [%s]: the real library agrees with the exact minimiser" % (label, sv)
                 if line.startswith("NULL"): nat.append((tagn, False, "the solver returned NULL", (label, sv))); continue
-                xv = [float(v) for v in line.split()[1:]]; err = max(abs(u - float(v)) for u, v in zip(xv, xo)); lim = 1e-5 * (1 + max(abs(float(v)) for v in xo))
-                nat.append((tagn, err <= lim, "max |x - x*| = %g (limit %g); x = %s; x* = %s" % (err, lim, xv, [float(v) for v in xo]), (label, sv)))
+                # criterion: the KKT conditions in double arithmetic within 1e-6 * (1 + max|b|) (what tools/replay/replay_nnls.c tests) and agreement of x itself.
+                # The badly scaled systems (condition numbers up to 1e13) are NOT part of this group: what double arithmetic may lose there is 'a tolerance tied to
+                # the conditioning' that the property does not quantify; the first version of this group included them and raised false alarms on four such systems
+                # at the thorough tier (Lawson-Hanson and block3 results off by the conditioning).  They stay in the exact groups.
+                xv = [float(v) for v in line.split()[1:]]; n = len(A); Af = [[float(v) for v in r] for r in A]; bf = [float(v) for v in b]; sc = 1 + max(abs(v) for v in bf)
+                g = [sum(Af[i][j] * xv[j] for j in range(n)) - bf[i] for i in range(n)]
+                kkt = [i for i in range(n) if xv[i] < -1e-6 or (xv[i] > 1e-6 and abs(g[i]) > 1e-6 * sc) or (xv[i] <= 1e-6 and g[i] < -1e-6 * sc)]
+                err = max(abs(u - float(v)) for u, v in zip(xv, xo)); lim = 1e-5 * (1 + max(abs(float(v)) for v in xo))
+                okx = err <= lim
+                nat.append((tagn, not kkt and okx, "KKT violated at %s (gradient %s); max |x - x*| = %g (limit %g); x = %s; x* = %s" % (kkt, g, err, lim, xv, [float(v) for v in xo]), (label, sv)))
         rep.add_group("native run of the real library against the exact minimiser (conformance of the assumed contracts; BOUNDED, double arithmetic)", len(nat), sum(1 for o in nat if o[1]), time.time() - t1,
-                      bounded="the same %d systems, nnls_normal_block3 and nnls_normal_block" % len(sysl), name="C11-native")
+                      bounded="the %d of these systems that are not badly scaled, all four solvers (Lawson-Hanson on the pre-formulated normal equations)" % len([1 for q in sysl if not q[0].startswith("scaled")]), name="C11-native")
         for o in nat:
             if not o[1]: rep.add_violation("C11-native", re.sub(r"[^\w\-\+\.\[\],:#]", "_", o[0])[:200], o[0] + ": " + o[2], trace=o[2], replay=replay("%s [%s," % o[3]))
     else: rep.undecided.append("the native harness did not build")
@@ -463,8 +505,8 @@ def main():
     for k in ("solves", "rowadd", "rowdel", "recompute", "factorize", "descents"):
         if not tot.get(k): rep.undecided.append("vacuity: no execution reached %s" % k)
     rep.samples.append("paths exercised: %s" % tot)
-    rep.assume("PARTIAL and BOUNDED: decided for nnls_normal_block3 (the solver fitting uses) and nnls_normal_block on the enumerated systems only; nnls_normal_block_updown and nnls_lawson_hanson are not executed",
-               "cholmod (submatrix, sdmult, drop, analyze, factorize, rowadd, rowdel, solve) is an assumed contract: exact sparse algebra, a factor is the factorisation of its matrix",
+    rep.assume("PARTIAL and BOUNDED: decided for nnls_normal_block3 (the solver fitting uses), nnls_normal_block, nnls_normal_block_updown and nnls_lawson_hanson (normal-equation and least-squares form, tolerance 1e-9, no iteration cap) on the enumerated systems only",
+               "cholmod (submatrix, sdmult, drop, analyze, factorize, rowadd, rowdel, solve) and SuiteSparseQR's backslash (least-squares solution of a full-column-rank system) are an assumed contract: exact sparse algebra, a factor is the factorisation of its matrix",
                "recompute_factor and get_column (they work inside cholmod's factor / compressed-column arrays) are replaced by their documented effect: NOT verified",
                "the worker threads of walk_descents are run to completion one after the other when the coordinator waits (protocol: C12)",
                "machine arithmetic treated as mathematical: every decision of the solvers is taken on exact rationals; rounding and conditioning are not modelled",
